@@ -29,6 +29,12 @@ CHECKS = {
             "The claim holds up to the bound on n; independence of n beyond it is argued, not proved.", "§6 C17"),
 }
 
+CHECKS["C01"] = (TV, "translation validation: symbolic execution (SSA->SMT, z3) of source-under-coroutine-semantics vs compiled code + real seq, per generated program",
+    "For every program of a generated corpus (bounded-exhaustive small bodies, seeded larger samples, directed shapes) the real compiler is run from /repo and "
+    "both the source (reference coroutine semantics inside the engine) and the compiled output linked with the real seq runtime are executed symbolically "
+    "on the same path; one SMT query per path decides that the yielded sequences and end-of-iteration agree for ALL argument values within the bounds "
+    "(64-bit ints, loop bound n in [-1,3], K advances). The program dimension is sampled, not symbolic.", "§6 C01")
+
 NA = {
     "C11": "compiler acceptance/buildability is decided by the compiler pipeline itself (go/packages, go/types, reflection-based AST rewriting, printer, file system); it cannot be encoded by an SSA->SMT translator and has no symbolic dimension once a program is fixed — enumeration of concrete compiler runs would be a different technique (DESIGN §7)",
     "C15": "byte-identical output across runs/configurations is a statement about repeated process runs, map iteration in the compiler and leftovers on disk; no symbolic inputs and the code is not encodable (DESIGN §7)",
